@@ -120,7 +120,11 @@ def value_correspondence(ctx, values):
             mism.append(dict(what=f"implementation refuses at dump ({r[1]}: {r[2]}), the model dumps it", value=repr(v)[:500]))
             continue
         schema, _, _ = archive_parts(r[-1])
-        a = pyval.strip_opaque(pyval.summarise(schema))
+        try:
+            a = pyval.strip_opaque(pyval.summarise(schema))
+        except Exception as ex:
+            mism.append(dict(what=f"dumped schema has a layout the model's reader does not know ({type(ex).__name__}: {ex})", value=repr(v)[:500]))
+            continue
         b = unnt(pyval.strip_opaque(m["schema"]))
         if a != b:
             mism.append(dict(what="dumped schema differs from the model's", value=repr(v)[:500], impl=json.dumps(a)[:400], model=json.dumps(b)[:400]))
